@@ -645,6 +645,18 @@ func rawClient(cw *c16World, sc *WireScn, ci int, spec WireClient, cl *Client, f
 			x, b := mk(1, nfsclient.ArgsFH(fhs[0]))
 			wire := nfsclient.Frame(b, nil)
 			cut := 1 + r.Int(len(wire)-1)
+			if r.Pct(50) {
+				// the worst place to lose one's position: a WRITE whose payload is itself a complete framed
+				// call, cut exactly where the payload begins - a server that forgets it was inside a record
+				// would take the payload for the next call and answer it
+				_, inner := mk(0, nil)
+				payload := nfsclient.Frame(inner, nil)
+				x, b = mk(7, nfsclient.ArgsWrite(fhs[0], 0, uint32(len(payload)), 2, payload))
+				wire = nfsclient.Frame(b, nil)
+				if i := bytes.Index(wire, payload); i > 0 {
+					cut = i
+				}
+			}
 			cl.Conn.Write(wire[:cut])
 			simrt.Fault("net.stall_midrecord")
 			simrt.Sleep(time.Duration([]int{2, 8, 33, 70}[r.Int(4)]) * time.Second)
